@@ -462,11 +462,27 @@ class HttpProxyPlugin(HttpProtocolHandlerPlugin):
                             return
                         self.pipeline_request = r
                     assert self.pipeline_request is not None
+                    disable_headers = None
+                    if not self.request.is_https_tunnel:
+                        # Same treatment as the first request on a plain
+                        # http connection, see on_request_complete.
+                        self.pipeline_request.del_headers(
+                            [
+                                httpHeaders.PROXY_AUTHORIZATION,
+                                httpHeaders.PROXY_CONNECTION,
+                            ],
+                        )
+                        self.pipeline_request.add_headers(
+                            [(b'Via', b'1.1 %s' % PROXY_AGENT_HEADER_VALUE)],
+                        )
+                        disable_headers = self.flags.disable_headers
                     # TODO(abhinavsingh): Remove memoryview wrapping here after
                     # parser is fully memoryview compliant
                     self.upstream.queue(
                         memoryview(
-                            self.pipeline_request.build(),
+                            self.pipeline_request.build(
+                                disable_headers=disable_headers,
+                            ),
                         ),
                     )
                     if not self.pipeline_request.is_connection_upgrade:
